@@ -490,7 +490,8 @@ def check_property(prop: str, tier: str, seed: int, quiet: bool = False) -> int:
             "extraction_rewrites": "every item: E1 attributes dropped + derived impls generated, E2 use dropped, E3 named return + contract, E13 visibility widened; where present: E4 loop invariants, E5/E6 closure types + ensures / tuple-pattern parameters, E7 exec const, E10 proof hints; call-site rewrites are listed in call_site_rewrites (rules in DESIGN.md 0.2 / 3.2); round-trip check (strip markers, undo rewrites, compare with /repo text) passed for every item",
             "call_site_rewrites": [dict(x, unit=r.unit) for r in results for x in r.rewrites if any(o["fid"] == x.get("fn") for o in obligations)],
             "assumed_leaves": [{"function": fid, "unit": r.unit, "file": info["file"], "line": info["line"],
-                                "note": "E14: body not verified (outside Verus' subset); its contract is an ASSUMPTION used by callers"}
+                                "note": ("E14: body not verified (outside Verus' subset); its contract is an ASSUMPTION used by callers" if info.get("labels")
+                                         else "declaration only: body not verified here and NO contract is assumed about it (callers' contracts mention it only through call_ensures)")}
                                for r in results for fid, info in r.functions.items() if info.get("assumed")],
             "proof_hints_skipped": [x for r in results for x in r.skipped],
             "machine_arithmetic": "u64/u128/usize are machine integers with overflow as a proof obligation (strict units) or as abort = revert via E8 partial operators (relaxed units, listed in call_site_rewrites); spec-level sums are mathematical integers",
